@@ -535,3 +535,62 @@ func ToMeta(o map[string]any) metav1.ObjectMeta {
 	}
 	return m
 }
+
+// Clone returns an independent copy of the cluster state (objects, history, counters, kind
+// configuration, indexes, admission functions). Hooks, trace and scheduler are not copied.
+func (w *World) Clone() *World {
+	w.mu.Lock()
+	defer w.mu.Unlock()
+	n := NewWorld(w.Scheme, w.rng.Uint64())
+	n.rv, n.uidN, n.clock = w.rv, w.uidN, w.clock
+	n.KeepBodies = w.KeepBodies
+	for k, o := range w.objs {
+		n.objs[k] = runtime.DeepCopyJSON(o)
+	}
+	for k, vs := range w.hist {
+		cp := make([]version, len(vs))
+		for i, v := range vs {
+			cp[i] = version{rv: v.rv}
+			if v.obj != nil {
+				cp[i].obj = runtime.DeepCopyJSON(v.obj)
+			}
+		}
+		n.hist[k] = cp
+	}
+	for gk, ki := range w.kinds {
+		n.kinds[gk] = ki
+	}
+	for gk, m := range w.idx {
+		n.idx[gk] = map[string]client.IndexerFunc{}
+		for f, fn := range m {
+			n.idx[gk][f] = fn
+		}
+	}
+	n.admit = append(n.admit, w.admit...)
+	return n
+}
+
+// SeedFull stores an object including its status (create, then a status update when the kind
+// has a status subresource and the object carries a status).
+func (w *World) SeedFull(actor string, obj map[string]any) error {
+	c := w.Client(actor)
+	u := &unstructured.Unstructured{Object: runtime.DeepCopyJSON(obj)}
+	st, has := obj["status"]
+	if err := c.Create(nil, u); err != nil { //nolint:staticcheck // context unused by sim
+		return err
+	}
+	if has {
+		if _, still := u.Object["status"]; !still {
+			u.Object["status"] = runtime.DeepCopyJSONValue(st)
+			return c.Status().Update(nil, u) //nolint:staticcheck // context unused by sim
+		}
+	}
+	return nil
+}
+
+// MustSeedFull is SeedFull that panics on error.
+func (w *World) MustSeedFull(actor string, obj map[string]any) {
+	if err := w.SeedFull(actor, obj); err != nil {
+		panic(fmt.Sprintf("seed %v: %v", obj["metadata"], err))
+	}
+}
